@@ -259,8 +259,13 @@ class Registry:
     def class_names(self, cls):
         if isinstance(cls, Func) and cls.label.startswith("builtin:"):
             return [cls.label[8:]]
+        if isinstance(cls, Func) and cls.label.startswith("model:"):
+            return [cls.label[6:]]   # a class whose constructor is a model function
         if isinstance(cls, Conc) and hasattr(cls.v, "__pyvc_classname__"):
             return [cls.v.__pyvc_classname__]
+        from .sx import Unknown, EXC_PARENT
+        if isinstance(cls, Conc) and isinstance(cls.v, Unknown) and cls.v.why in EXC_PARENT:
+            return [cls.v.why]   # an exception class imported by the module
         if isinstance(cls, Conc):
             v = cls.v
             if isinstance(v, tuple):
@@ -287,6 +292,65 @@ class Registry:
             if pred(mgr, st):
                 return factory(mgr)
         raise Unsupported("no context-manager contract for %r (%s)" % (mgr, ast.unparse(node)), node)
+
+    def bound_at_module_level(self, sx, name):
+        """is `name` imported / defined / assigned at the top level of the unit's source file?"""
+        u = self.cur_unit
+        if u is None:
+            return False
+        text, tree = load_source(u.path)
+        for node in tree.body:
+            if isinstance(node, (ast.Import, ast.ImportFrom)):
+                for a in node.names:
+                    if (a.asname or a.name.split(".")[0]) == name:
+                        return True
+            elif isinstance(node, (ast.FunctionDef, ast.AsyncFunctionDef, ast.ClassDef)) and node.name == name:
+                return True
+            elif isinstance(node, ast.Assign):
+                for t in node.targets:
+                    if isinstance(t, ast.Name) and t.id == name:
+                        return True
+            elif isinstance(node, ast.Try):
+                for sub in ast.walk(node):
+                    if isinstance(sub, (ast.Import, ast.ImportFrom)):
+                        for a in sub.names:
+                            if (a.asname or a.name.split(".")[0]) == name:
+                                return True
+        return False
+
+    def own_class_method(self, sx, obj, attr, st):
+        """`self.helper(...)` where helper is a method of the unit's own class that has no contract: verified as part of its
+        caller by inlining its body (like module-level helpers)"""
+        u = self.cur_unit
+        if u is None or "." not in u.qual:
+            return None
+        selfv = (getattr(sx, "entry_params", None) or {}).get("self")
+        if not (isinstance(selfv, Ref) and isinstance(obj, Ref) and selfv.cell == obj.cell):
+            return None
+        cls = u.qual.split(".")[0]
+        text, tree = load_source(u.path)
+        for node in tree.body:
+            if isinstance(node, ast.ClassDef) and node.name == cls:
+                for f in node.body:
+                    if isinstance(f, (ast.FunctionDef, ast.AsyncFunctionDef)) and f.name == attr:
+                        if any(isinstance(n, (ast.Yield, ast.YieldFrom)) for n in ast.walk(f)):
+                            return None
+                        if any(isinstance(d, ast.Name) and d.id in ("staticmethod", "classmethod", "property") for d in f.decorator_list):
+                            return None
+
+                        def call(sx2, args, kwargs, st2, callnode, fdef=f, obj=obj):
+                            return sx2.inline_call(fdef, [obj] + list(args), kwargs, st2, 0, callnode)
+
+                        return Func(call, "inlined-method:%s.%s" % (cls, attr))
+        return None
+
+    def havoc_ghost_for_unknown_call(self, sx, st):
+        # an uncontracted callee may have done anything the ghost state records: every integer / boolean ghost becomes arbitrary
+        for g, v in list(st.ghost.items()):
+            if g.startswith("__"):
+                continue
+            if isinstance(v, Val) and not isinstance(v, (Ref, Func, Conc)) and v.ty is not None and v.term is not None:
+                st.ghost[g] = sx.fresh(v.ty, "g_" + g, st)
 
     def frame_of_call(self, sx, callnode, fname):
         """roots (expression strings) a call may mutate; None = unknown (havoc everything)"""
